@@ -9,6 +9,7 @@ import (
 	"fmt"
 	"io"
 	"runtime"
+	"strings"
 	"sync"
 	"testing"
 	"time"
@@ -25,11 +26,12 @@ type c09Case struct {
 	Lines       [][]byte `json:"lines"` // valid documents (no raw LF) or blank / white-space-only lines
 	CRLF        []bool   `json:"crlf"`
 	FinalNL     bool     `json:"final_nl"`
-	Frags       []int    `json:"frags"`   // sizes of successive Read results, cycled; 0 = everything that is left
-	ResCap      int      `json:"res_cap"` // capacity of the result channel
-	Reuse       int      `json:"reuse"`   // 0 nil channel, 1 recycle every value, 2 recycle every other value
-	Procs       int      `json:"procs"`   // GOMAXPROCS
-	ErrAt       int      `json:"err_at"`  // -1: none; else the reader fails after delivering this many bytes
+	Frags       []int    `json:"frags"`    // sizes of successive Read results, cycled; 0 = everything that is left
+	ResCap      int      `json:"res_cap"`  // capacity of the result channel
+	Reuse       int      `json:"reuse"`    // 0 nil channel, 1 recycle every value, 2 recycle every other value
+	Procs       int      `json:"procs"`    // GOMAXPROCS
+	ErrAt       int      `json:"err_at"`   // -1: none; else the reader fails after delivering this many bytes
+	ErrKind     int      `json:"err_kind"` // which error the reader fails with: 0 custom, 1 io.ErrUnexpectedEOF, 2 io.ErrClosedPipe, 3 a wrapped error
 	EOFWithData bool     `json:"eof_with_data"`
 	ForceOrder  bool     `json:"force_order"` // chunk k may not deliver before chunk k+1 has been parsed
 	SlowConsume bool     `json:"slow_consume"`
@@ -37,11 +39,36 @@ type c09Case struct {
 
 var errInjected = errors.New("injected reader failure")
 
+// injectedTarget is the sentinel errors.Is must find in what the stream delivers.
+func injectedTarget(kind int) error {
+	switch kind % 4 {
+	case 1:
+		return io.ErrUnexpectedEOF
+	case 2:
+		return io.ErrClosedPipe
+	}
+	return errInjected
+}
+
+// the reader's own error: standard values that a library might be tempted to special-case are included
+func injectedError(kind int) error {
+	switch kind % 4 {
+	case 1:
+		return io.ErrUnexpectedEOF
+	case 2:
+		return io.ErrClosedPipe
+	case 3:
+		return fmt.Errorf("read tcp: connection reset: %w", errInjected)
+	}
+	return errInjected
+}
+
 type fragReader struct {
 	data        []byte
 	frags       []int
 	k, pos      int
 	errAt       int
+	errKind     int
 	eofWithData bool
 	reads       int
 	fragInToken bool
@@ -50,7 +77,7 @@ type fragReader struct {
 func (r *fragReader) Read(p []byte) (int, error) {
 	r.reads++
 	if r.errAt >= 0 && r.pos >= r.errAt {
-		return 0, errInjected
+		return 0, injectedError(r.errKind)
 	}
 	if r.pos >= len(r.data) {
 		return 0, io.EOF
@@ -169,7 +196,7 @@ func c09Check(c c09Case) error {
 	if c.Reuse > 0 {
 		reuse = make(chan *simdjson.ParsedJson, 8)
 	}
-	rd := &fragReader{data: data, frags: c.Frags, errAt: c.ErrAt, eofWithData: c.EOFWithData}
+	rd := &fragReader{data: data, frags: c.Frags, errAt: c.ErrAt, eofWithData: c.EOFWithData, errKind: c.ErrKind}
 	if c.Reuse > 0 {
 		simdjson.ParseNDStream(rd, res, reuse)
 	} else {
@@ -229,7 +256,7 @@ func c09Check(c c09Case) error {
 			return fmt.Errorf("the delivered documents differ from the stream's: %s (%s)", diffCanon(wantAll, gotAll), describe())
 		}
 	} else {
-		if len(errs) != 1 || !errors.Is(errs[0], errInjected) {
+		if len(errs) != 1 || !errors.Is(errs[0], injectedTarget(c.ErrKind)) {
 			return fmt.Errorf("reader failed with the injected error, but the stream delivered errors %v (%s)", errs, describe())
 		}
 		isPrefix := false
@@ -303,6 +330,14 @@ func genStreamLines(t *rapid.T, maxLines int) (lines [][]byte, crlf []bool) {
 		lines = append(lines, []byte(`{"only":"document"}`))
 		crlf = append(crlf, false)
 	}
+	if rapid.IntRange(0, 11).Draw(t, "longline") == 0 {
+		// one very long line (longer than any small internal buffer a reader layer might use)
+		n := rapid.IntRange(70_000, 200_000).Draw(t, "longlen")
+		at := rapid.IntRange(0, len(lines)).Draw(t, "longat")
+		long := []byte(`{"long":"` + strings.Repeat("L", n) + `","n":[1,2,3]}`)
+		lines = append(lines[:at], append([][]byte{long}, lines[at:]...)...)
+		crlf = append(crlf[:at], append([]bool{false}, crlf[at:]...)...)
+	}
 	return
 }
 
@@ -367,12 +402,14 @@ func TestC09_ReaderErrors(t *testing.T) {
 			for at := 0; at <= total; at++ {
 				c := base
 				c.ErrAt = at
+				c.ErrKind = at % 4
 				c09Eval(t, c, "reader-error-every-offset")
 			}
 		} else {
 			for k := 0; k < 12; k++ {
 				c := base
 				c.ErrAt = rapid.IntRange(0, total).Draw(t, "errat")
+				c.ErrKind = rapid.IntRange(0, 3).Draw(t, "errkind")
 				c09Eval(t, c, "reader-error-sampled")
 			}
 		}
